@@ -121,3 +121,34 @@ def run_replay_file(path, repo):
     r = subprocess.run([exe, "run", rec["family"], rec["witness"]], capture_output=True, text=True)
     print(r.stdout)
     return 1 if r.returncode == 1 else 0
+
+
+def fallback_search(prop, reason, repo):
+    """Verifier undecided: search the property's witness family on the real code.  Returns (replay path, obligation) or None."""
+    from . import registry
+    P = registry.PROPS.get(prop, {})
+    fams = [f for (_, f) in P.get("replay_families", [])] or ([P["replay_family"]] if P.get("replay_family") else [])
+    if not fams:
+        return None
+    exe = build_replay(repo, ("fast-float-parsing",))
+    if exe is None:
+        return None
+    for fam in fams:
+        try:
+            r = subprocess.run([exe, "find", fam, "undecided"], capture_output=True, text=True, timeout=900)
+        except subprocess.TimeoutExpired:
+            continue
+        lines = r.stdout.strip().split("\n")
+        if r.returncode == 1 and lines and lines[0].startswith("FOUND "):
+            d = os.path.join(VERIF, "replays", prop)
+            os.makedirs(d, exist_ok=True)
+            oid = "%s/undecided-by-verifier" % prop
+            path = os.path.join(d, "undecided_bounded_witness.json")
+            rec = dict(property=prop, obligation=oid, checker="verus (undecided) + bounded witness family on the real code",
+                       verifier_output=reason, family=fam, witness=lines[0][6:], observed="\n".join(lines[1:]),
+                       features=["fast-float-parsing"], bounded=True, repo=repo,
+                       note="the verifier could not decide the property's obligations on this tree; this concrete input contradicts the property on the real code")
+            with open(path, "w") as f:
+                json.dump(rec, f, indent=1)
+            return (path, oid)
+    return None
